@@ -84,7 +84,17 @@ fn one_case(seed: u64, i: u64) -> CaseOut {
             1 => Cmd::Step,
             2 => Cmd::StepInto(*rng.pick(&[0u32, 1, 3, 1000])),
             3 => Cmd::StepOut,
-            _ => Cmd::Inspect("registers".into()),
+            // a command that neither resumes nor changes anything must come back too, whatever it is asked about
+            _ => Cmd::Inspect(match rng.below(8) {
+                0 => "registers".to_string(),
+                1 => format!("assembly x{:04x}", img.origin().wrapping_sub(1 + rng.below(3) as u16)),
+                2 => rng.s(&["assembly x0000", "assembly 0", "assembly xFFFF", "assembly xFE00", "print x0000", "print xFFFF"]).to_string(),
+                3 => format!("assembly x{:04x}", img.origin().wrapping_add(img.words.len() as u16 + rng.below(3) as u16)),
+                4 => "break list".to_string(),
+                5 => "assembly".to_string(),
+                6 => format!("print x{:04x}", rng.u16()),
+                _ => format!("assembly x{:04x}", rng.u16()),
+            }),
         });
     }
     let lines = script_lines(&cmds, seed ^ i);
